@@ -151,6 +151,8 @@ def enc_auth(a):
         return ber.octets(_s("%s:%s" % (a["username"], a["password"])), CONTEXT, 1024)
     if t == "EdgeAuth":
         return ber.octets(_h(a["token"]), CONTEXT, int(a["n"]))
+    if t == "SubSimple":  # the harness' credential deriving from the built-in simple credential, choice id 10
+        return ber.octets(_s(a["password"]), CONTEXT, 10)
     raise ValueError("unknown auth kind %r" % t)
 
 
